@@ -72,7 +72,20 @@ def run_case(ck: Check, case: dict):
         ck.count("skipped:" + ctx.reason.split(":")[0])
         return
     g = ctx.g
-    st, r = algos.call(g.bfs, max_diameter=D, return_all_hashes=True, max_layer_size_to_store=case.get("store", 1000), disable_batching=case.get("nobatch", False))
+    bkw = {"max_diameter": D}
+    if case.get("ball_stop") == "callback" and D >= 1:
+        # the ball ends because a user callback says so (after D new layers), not because of the depth limit
+        seen = [0]
+
+        def cb(_layer, _hashes):
+            seen[0] += 1
+            return seen[0] >= D
+
+        bkw = {"stop_condition": cb}
+    elif case.get("ball_stop") == "explore" and D >= 1 and D < len(ctx.layers):
+        bkw = {"max_layer_size_to_explore": len(ctx.layers[D])}
+    ck.count("ball ended by:" + ("depth limit" if "max_diameter" in bkw else "callback" if "stop_condition" in bkw else "layer-size limit"))
+    st, r = algos.call(g.bfs, return_all_hashes=True, max_layer_size_to_store=case.get("store", 1000), disable_batching=case.get("nobatch", False), **bkw)
     if st != "ok":
         ck.violation("C04/bfs-error", "BFS with hashes raised: " + r, {"case": case})
         return
@@ -97,8 +110,10 @@ def run_case(ck: Check, case: dict):
         in_ball = d is not None and d <= depth
         ck.case(["to", gd.key(), cfg, D, q], True, sample={"gd_tag": gd.tag, "n": len(gd.central), "cfg": cfg, "D": D, "query": q[:12], "true_dist": d})
         ck.traces += 1
+        ck.count("container:" + case.get("container", "list"))
         ck.count("query:" + ("inside" if in_ball and d < depth else "boundary" if in_ball else "outside-ball" if d is not None else "outside-orbit"))
-        st, p = algos.call(g.find_path_to, q, r)
+        mshape = (gd.n, gd.m) if gd.kind == "mat" else None
+        st, p = algos.call(g.find_path_to, algos.container(case.get("container", "list"), q, mshape), r)
         mres = algos.parse_path_res(ctx.drv.ask(f"path.to ; {lines} ; {gd.pack(q)}"))
         rep = {"case": dict(case, queries=[q]), "true_distance": d, "ball_depth": depth}
         if st != "ok":
@@ -123,7 +138,7 @@ def run_case(ck: Check, case: dict):
             ck.count("drift:path.to differs in generator choice (non-binding)")
         # find_path_from (inverse-closed only) and revert_path
         if g.definition.generators_inverse_closed:
-            st, pf = algos.call(g.find_path_from, q, r)
+            st, pf = algos.call(g.find_path_from, algos.container(case.get("container", "list"), q, mshape), r)
             if st != "ok" or pf is None:
                 ck.violation("C04/find_path_from/error-or-missed", f"find_path_from failed for a state inside the ball: {pf}", rep)
                 continue
@@ -158,7 +173,7 @@ def gen_case(ck: Check, cap):
     o = outside_state(rng, gd, orbit)
     if o is not None and rng.random() < 0.6:
         queries.append(o)
-    return {"gd": gd.to_json(), "cfg": graphs.gen_cfg(rng, gd), "D": D, "queries": queries, "store": rng.choice([None, 1, 1000]), "nobatch": rng.random() < 0.3, "via_file": rng.random() < 0.15}
+    return {"gd": gd.to_json(), "cfg": graphs.gen_cfg(rng, gd), "D": D, "queries": queries, "store": rng.choice([None, 1, 1000]), "nobatch": rng.random() < 0.3, "via_file": rng.random() < 0.15, "ball_stop": rng.choice(["depth", "depth", "callback", "explore"]), "container": algos.pick_container(rng, max(x for q in queries for x in q), min(x for q in queries for x in q))}
 
 
 def main():
